@@ -1402,12 +1402,12 @@ func (k *Kad) EachPeerRev(f model.EachPeerFunc, filter topology.Filter) error {
 func (k *Kad) Reachable(addr boson.Address, status p2p.ReachabilityStatus) {
 	k.collector.Record(addr, im.PeerReachability(status))
 	k.logger.Tracef("kademlia: reachability of peer %s is %s", addr.String(), status.String())
-	if status == p2p.ReachabilityStatusPublic {
-		k.depthMu.Lock()
-		k.depth = recalcDepth(k.connectedPeers, k.radius, k.peerFilter)
-		k.depthMu.Unlock()
-		k.notifyManageLoop()
-	}
+	// the depth counts reachable peers only, so it changes both when a
+	// peer becomes reachable and when it stops being so
+	k.depthMu.Lock()
+	k.depth = recalcDepth(k.connectedPeers, k.radius, k.peerFilter)
+	k.depthMu.Unlock()
+	k.notifyManageLoop()
 }
 
 // UpdateReachability updates node reachability status.
